@@ -52,6 +52,9 @@ def covF (derived : Nat → List Nat) : Nat → Nat → List Nat
 
 structure Graph where
   n : Nat
+  /-- bound on the depth of every recursion through `direct_derived` (any number ≥ the length of the
+      longest inheritance chain; the number of records is one) -/
+  fuel : Nat
   heads : List Head
   /-- de-duplicated listed proper bases, sorted by weight -/
   tb0 : Tab (List Nat)
@@ -65,24 +68,39 @@ structure Graph where
 def Graph.abstract (g : Graph) (c : Nat) : Bool := (g.heads[c]?.map (·.abstract)).getD false
 def Graph.ids (g : Graph) (c : Nat) : List Nat := (g.heads[c]?.map (·.ids)).getD []
 
+/-- de-duplicated listed proper bases -/
+def tbDOf (proj : Nat → Nat) (hs : List Head) (recs : List ClassRec) : Tab (List Nat) :=
+  Tab.ofFn hs.length (fun i => dedup (rawBases proj hs recs i)) []
+
+/-- … sorted by weight (number of listed proper bases), heaviest first -/
+def tb0Of (n : Nat) (tbD : Tab (List Nat)) : Tab (List Nat) :=
+  Tab.ofFn n (fun i => isortBy (fun a b => (tbD.get a).length > (tbD.get b).length) (tbD.get i)) []
+
+def directOf (n : Nat) (tbD tb0 : Tab (List Nat)) : Tab (List Nat) :=
+  Tab.ofFn n (fun i => (extract tbD.get (tb0.get i) [] []).1) []
+
+def derivedOf (n : Nat) (direct : Tab (List Nat)) : Tab (List Nat) :=
+  Tab.ofFn n (fun b => (List.range n).filter (fun c => (direct.get c).contains b)) []
+
+def covOf (n fuel : Nat) (derived : Tab (List Nat)) : Tab (List Nat) :=
+  Tab.ofFn n (fun c => isortBy (fun a b => a < b) (covF derived.get fuel c)) []
+
+/-- repair of D4: complete `transitive_bases` from the covariant sets -/
+def tbOf (n : Nat) (tb0 cov : Tab (List Nat)) : Tab (List Nat) :=
+  Tab.ofFn n (fun d => tb0.get d ++
+    (List.range n).filter (fun c => (cov.get c).contains d && c != d && !(tb0.get d).contains c)) []
+
 def buildGraph (proj : Nat → Nat) (recs : List ClassRec) : Except Err Graph :=
   let hs := heads proj recs
   match firstUnknownBase proj hs recs with
   | some b => .error (.unknownClass b)
   | none =>
     let n := hs.length
-    let tbD : Tab (List Nat) := Tab.ofFn n (fun i => dedup (rawBases proj hs recs i)) []
-    let weight := fun i => (tbD.get i).length
-    let tb0 : Tab (List Nat) :=
-      Tab.ofFn n (fun i => isortBy (fun a b => weight a > weight b) (tbD.get i)) []
-    let direct : Tab (List Nat) := Tab.ofFn n (fun i => (extract tbD.get (tb0.get i) [] []).1) []
-    let derived : Tab (List Nat) :=
-      Tab.ofFn n (fun b => (List.range n).filter (fun c => (direct.get c).contains b)) []
-    let cov : Tab (List Nat) :=
-      Tab.ofFn n (fun c => isortBy (fun a b => a < b) (covF derived.get n c)) []
-    let tb : Tab (List Nat) :=
-      Tab.ofFn n (fun d => tb0.get d ++
-        (List.range n).filter (fun c => (cov.get c).contains d && c != d && !(tb0.get d).contains c)) []
-    .ok { n, heads := hs, tb0, direct, derived, cov, tb }
+    let tbD := tbDOf proj hs recs
+    let tb0 := tb0Of n tbD
+    let direct := directOf n tbD tb0
+    let derived := derivedOf n direct
+    let cov := covOf n recs.length derived
+    .ok { n, fuel := recs.length + 1, heads := hs, tb0, direct, derived, cov, tb := tbOf n tb0 cov }
 
 end Yomm2
